@@ -577,6 +577,12 @@ def gen_C06(seed):
         seam = rf.choice(["rhs", "rhs", "event"]) if ops[i].get("events") else "rhs"
         scn["faults"].append({"op": i, "seam": seam, "at": rf.randrange(1, 150), "kind": rf.choice(["raise", "raise", "kbdint"])})
         ops.append({"op": "integrate"})
+    rk_ = sub(seed, "switch_constants")
+    if not scn["faults"] and not with_events and len(ops) >= 2 and not scn["problem"].get("want_exact") and rk_.random() < 0.25:
+        # new constants between two calls: the first piece of the next call starts with the slope of the NEW right-hand side
+        k_old = s["constants"].get("k", 1.0)
+        ops.insert(1, {"op": "set", "attr": "constants", "value": dict(s["constants"], k=float("%.4g" % (k_old * rk_.uniform(1.5, 3.0))))})
+        scn["switch_constants"] = True
     return scn
 
 
